@@ -240,6 +240,9 @@ func (m *Message) tryCompressPayload(enableCompression bool) error {
 		return buf.Err
 	}
 	compressedPayload := buf.Bytes()
+	// The payload is serialized anew, so whether it's compressed is decided
+	// anew as well (the flag can be left from the previous encoding).
+	m.Flags &^= Compressed
 	if m.Flags&Compressed == 0 && enableCompression {
 		switch m.Payload.(type) {
 		case *payload.Headers, *payload.MerkleBlock, payload.NullPayload,
